@@ -64,8 +64,12 @@ int skinny128_parallel_ecb_init(Skinny128ParallelECB_t *ecb)
     Skinny128Key_t *ctx;
     if (!ecb)
         return 0;
-    if ((ctx = calloc(1, sizeof(Skinny128Key_t))) == NULL)
+    if ((ctx = calloc(1, sizeof(Skinny128Key_t))) == NULL) {
+        /* Leave an inert object behind if the allocation failed */
+        ecb->vtable = 0;
+        ecb->ctx = 0;
         return 0;
+    }
     ecb->vtable = 0;
     ecb->ctx = ctx;
     ecb->parallel_size = 4 * SKINNY128_BLOCK_SIZE;
